@@ -555,3 +555,28 @@ func init() {
 			Old: "\t\t\t\t\tif err := dec.SkipValue(); err != nil {\n\t\t\t\t\t\treturn err\n\t\t\t\t\t}\n\t\t\t\t\terr = errArrayOverflow\n", New: "\t\t\t\t\tdec.SkipValue()\n\t\t\t\t\terr = errArrayOverflow\n", Rule: "ERR-1"},
 	)
 }
+
+func init() {
+	addMutants(
+		// ---- round-e strengthening
+		Mutant{ID: "flagpair1-conjunction-to-mask", Props: []string{"C09", "C19"}, File: "arshal_default.go", Func: "makePointerArshaler",
+			Old: "if uo.Flags.Get(jsonflags.StringTag) && uo.Flags.Get(jsonflags.StringifyWithLegacySemantics) {", New: "if uo.Flags.Get(jsonflags.StringTag | jsonflags.StringifyWithLegacySemantics) {", Rule: "FLAGPAIR-1"},
+		Mutant{ID: "within1-mark-before-early-eof", Props: []string{"C20", "C17"}, File: "arshal_methods.go", Func: "makeMethodArshaler",
+			Old: "\t\t\tif prevDepth == 1 && xd.AtEOF() {\n\t\t\t\treturn io.EOF // check EOF early to avoid fn reporting an EOF\n\t\t\t}\n\t\t\txd.Flags.Set(jsonflags.WithinArshalCall | 1)\n",
+			New: "\t\t\txd.Flags.Set(jsonflags.WithinArshalCall | 1)\n\t\t\tif prevDepth == 1 && xd.AtEOF() {\n\t\t\t\treturn io.EOF // check EOF early to avoid fn reporting an EOF\n\t\t\t}\n", Rule: "WITHIN-1"},
+		Mutant{ID: "unwrite3-trim-under-option", Props: []string{"C02", "C15"}, File: "jsontext/encode.go", Func: "encoderState.UnwriteEmptyObjectMember",
+			Old: "\tb = jsonwire.TrimSuffixString(b)\n\tb = jsonwire.TrimSuffixWhitespace(b)\n", New: "\tb = jsonwire.TrimSuffixString(b)\n\tif e.Flags.Get(jsonflags.Multiline) {\n\t\tb = jsonwire.TrimSuffixWhitespace(b)\n\t}\n", Rule: "UNWRITE-3"},
+		Mutant{ID: "index1-fast-path-misses-offset-zero", Props: []string{"C16", "C11"}, File: "jsontext/errors.go", Func: "wrapWithObjectName",
+			Old: "\tname := jsonwire.UnquoteMayCopy(quotedName, false)\n", New: "\tname := quotedName[len(`\"`) : len(quotedName)-len(`\"`)]\n\tif bytes.IndexByte(name, '\\\\') > 0 {\n\t\tname = jsonwire.UnquoteMayCopy(quotedName, false)\n\t}\n", Rule: "INDEX-1"},
+		Mutant{ID: "escset1-formfeed-dropped", Props: []string{"C13", "C11"}, File: "internal/jsonwire/decode.go", Func: "ConsumeStringResumable",
+			Old: "case '\\b', '\\f', '\\n', '\\r', '\\t':\n\t\t\t\t\tflags.Join(stringNonCanonical)", New: "case '\\b', '\\n', '\\r', '\\t':\n\t\t\t\t\tflags.Join(stringNonCanonical)", Rule: "ESCSET-1"},
+		Mutant{ID: "deadfield1-v1-encoder-error-not-latched", Props: []string{"C09", "C07"}, File: "v1/stream.go", Func: "Encoder.Encode",
+			Old: "\tif _, err := enc.w.Write(b); err != nil {\n\t\tenc.err = err\n\t\treturn err\n\t}\n\treturn nil\n", New: "\t_, err := enc.w.Write(b)\n\treturn err\n", Rule: "DEADFIELD-1"},
+		Mutant{ID: "eof1-ateof-any-error", Props: []string{"C05", "C01"}, File: "jsontext/decode.go", Func: "decoderState.AtEOF",
+			Old: "return err == io.ErrUnexpectedEOF", New: "return err != nil", Rule: "EOF-1"},
+		Mutant{ID: "v13-checknextvalue-constant", Props: []string{"C09"}, File: "arshal.go", Func: "unmarshalDecode",
+			Old: "export.Decoder(in).CheckNextValue(last)", New: "export.Decoder(in).CheckNextValue(false)", Rule: "V1-3"},
+		Mutant{ID: "merge1-map-key-static-comparable", Props: []string{"C20", "C14"}, File: "arshal_default.go", Func: "makeMapArshaler",
+			Old: "!k.Elem().Type().Comparable()", New: "!k.Type().Comparable()", Rule: "MERGE-1"},
+	)
+}
